@@ -22,13 +22,16 @@ ASSUMPTIONS = [
 TRUSTED = ['script executor harness/llrp/zz_verif_lts_test.go (hand-built headers, net.Pipe)']
 
 
-def _run(tier, seed, only=None):
-    binp, out = core.build_harness('llrp')
+def _run(tier, seed, only=None, race=False):
+    binp, out = core.build_harness('llrp', race=race)
     if not binp:
         raise RuntimeError('harness build failed:\n' + out[-3000:])
     extra = {'VERIF_C03_ONLY': only} if only else None
-    path, rc, out = core.run_harness(binp, 'TestVerifC03', tier, seed, extra_env=extra, timeout=1200)
+    path, rc, out = core.run_harness(binp, 'TestVerifC03', 'quick' if race else tier, seed, extra_env=extra, timeout=1200,
+                                     outname='cases_TestVerifC03_race.txt' if race else None)
     if rc != 0:
+        if race and 'DATA RACE' in out:
+            return None, out
         raise RuntimeError('harness run failed rc=%d:\n%s' % (rc, out[-3000:]))
     return core.read_cases(path)
 
@@ -70,6 +73,15 @@ def correspond(res, tier, seed):
     res.extra['scripts'] = sum(1 for r in reqs if r.startswith('lts '))
     res.extra['stress_runs'] = sum(1 for r in reqs if r.startswith('check-c03 '))
     res.extra['traces_validated_against_impl'] = n
+    if tier == 'thorough':
+        # the same scripts and stress runs under the race detector
+        r2, o2 = _run(tier, seed, race=True)
+        if r2 is None:
+            res.violation('race:TestVerifC03', 'the race detector reports a data race in the correlation scenarios: ' + o2[o2.find('DATA RACE'):][:600],
+                          'history', True, case=['race TestVerifC03'], observed=[o2[-2000:]])
+        else:
+            judge(res, r2, o2)
+            res.extra['race_build_cases'] = len(r2)
 
 
 def replay(res, path):
